@@ -175,11 +175,13 @@ class ConveyorBelt(Edge):
         return_val = self.belt.put(event, item_to_put)
         self._conveyor_stats_collector()
         if len(self.belt.items)==1 and self.state=="IDLE_STATE":
-            self.item_arrival_event.succeed()
+            if not self.item_arrival_event.triggered:
+                self.item_arrival_event.succeed()
             print(f"T={self.env.now:.2f}: {self.id }:put: item arrival event succeeded")
         else: 
             event= self.env.event()
-            self.put_events_available.succeed()
+            if not self.put_events_available.triggered:
+                self.put_events_available.succeed()
             if self.accumulating==0:
                 print(f"T={self.env.now:.2f}: {self.id }: attempting to put an item while non accumulating mode on and {self.state} and {self.belt.noaccumulation_mode_on}")
             print(f"T={self.env.now:.2f}: {self.id }:put: item arrival event else succeeded")
